@@ -488,8 +488,6 @@ class C02Engine(IrEngineBase):
                 disarm_watchdog()
         except WatchdogTimeout:
             st["inconclusive.real_pass_slow"] += 1
-            if tr is not None:
-                tr.append("pass did not finish within 20 s of CPU time: inconclusive")
             return res
         except (RecursionError, MemoryError):
             st["inconclusive.resource_exhaustion"] += 1
@@ -507,8 +505,8 @@ class C02Engine(IrEngineBase):
                 tr.append(f"VIOLATION {oracle}: {detail}")
             return res
 
-        if tr is not None:
-            tr.append(f"pass {'raised ' + exc if exc else 'returned'}")
+        # (whether the pass returned or raised is counted, not logged: a pass may keep
+        # process-global state, and the trace must be a function of the run alone)
         if snap_tree(u, module) != snap:
             return bad("clone-modified-source", "the original module is not identical to what it was before apply_to_clone")
         try:
